@@ -69,8 +69,9 @@ import PyIpmi.Lemmas.ProgMultiHandlers
 import PyIpmi.Lemmas.ProgSel
 import PyIpmi.Lemmas.ProgSdr
 import PyIpmi.Lemmas.ProgCompose
+import PyIpmi.Lemmas.ProgOps
 namespace PyIpmi.Props.C08
-open PyIpmi PyIpmi.Prog PyIpmi.Spec.FaultDevice PyIpmi.Gen.ApiShapes
+open PyIpmi PyIpmi.Prog PyIpmi.Prog.Ops PyIpmi.Spec.FaultDevice PyIpmi.Gen.ApiShapes
 
 /-! ### generic -/
 
@@ -394,17 +395,6 @@ theorem sdr_data_multi_safe (Φ : (Nat → Option Nat) → Prop) (cfg : SdrCfg) 
   sdrData_ms cfg reserve chunk hdr base Φ resOpt rid res rid' L nx0 nx rec hreserve hres hsafe0 hhead
     hparse hlen hdev hsafe
 
-/-- What is assumed of the device for one SDR: with the reservation `res`, the header read of
-record `rid` and every read of the record `rid'` named in the header that stays inside it are
-answered OK with exactly those bytes. -/
-def SdrStorage (cfg : SdrCfg) (mk : Nat → Nat → Nat → Nat → Req) (nextOf : Rsp → Nat)
-    (pay : Rsp → List Nat) (base : Req → Rsp) (res rid rid' nx0 nx : Nat) (rec : List Nat) : Prop :=
-  ((base (mk res rid 0 cfg.hdrLen)).cc = 0 ∧ nextOf (base (mk res rid 0 cfg.hdrLen)) = nx0 ∧
-      pay (base (mk res rid 0 cfg.hdrLen)) = rec.take cfg.hdrLen) ∧
-  ∀ off len, off + len ≤ rec.length →
-    (base (mk res rid' off len)).cc = 0 ∧ nextOf (base (mk res rid' off len)) = nx ∧
-      pay (base (mk res rid' off len)) = (rec.drop off).take len
-
 /-- get_repository_sdr / get_device_sdr (get_sdr_data_helper over `_get_sdr_chunk` /
 `_get_device_sdr_chunk`, i.e. over get_sdr_chunk_helper) under any fault set.  The reservation
 in use is the one the device hands out (`resOpt = none`, or that id given). -/
@@ -421,25 +411,22 @@ theorem sdr_record_multi_safe (Φ : (Nat → Option Nat) → Prop) (cfg : SdrCfg
     (hparse : hdr (rec.take cfg.hdrLen) = .ok (rid', rec.length)) (hlen : cfg.hdrLen ≤ rec.length) :
     MultiSafeOn Φ base
       (sdrData cfg reserve (sdrChunkOp cs reserve setRes budget mk nextOf pay) hdr resOpt rid) := by
-  obtain ⟨⟨h0, h1, h2⟩, hserve⟩ := hdev
   refine sdrData_ms cfg reserve _ hdr base Φ resOpt rid res rid' rec.length nx0 nx rec hreserve ?_
     (sdrChunkOp_ms cs reserve setRes budget mk nextOf pay base Φ hreserve res hres rid 0 cfg.hdrLen
-      (hfix _ _ _)) ?_ hparse hlen ⟨rfl, ?_⟩
+      (hfix _ _ _))
+    (sdrStorage_head cfg cs reserve setRes budget mk nextOf pay base res rid rid' nx0 nx rec hb hdev)
+    hparse hlen
+    (sdrStorage_served cfg cs reserve setRes budget mk nextOf pay base res rid rid' nx0 nx rec hb hdev)
     (fun off len => sdrChunkOp_ms cs reserve setRes budget mk nextOf pay base Φ hreserve res hres rid'
       off len (hfix _ _ _))
-  · intro n r hr
-    rcases hgiven with h | h
-    · subst h
-      simp only [sdrReservation] at hr
-      rw [hres n] at hr; cases hr; rfl
-    · subst h
-      simp only [sdrReservation] at hr
-      exact (outcome_done_inv hr)
-  · intro n
-    rw [sdrChunkOp_pure cs reserve setRes budget mk nextOf pay base res rid 0 cfg.hdrLen n hb h0, h1, h2]
-  · intro off len n hle
-    obtain ⟨s0, s1, s2⟩ := hserve off len hle
-    rw [sdrChunkOp_pure cs reserve setRes budget mk nextOf pay base res rid' off len n hb s0, s1, s2]
+  intro n r hr
+  rcases hgiven with h | h
+  · subst h
+    simp only [sdrReservation] at hr
+    rw [hres n] at hr; cases hr; rfl
+  · subst h
+    simp only [sdrReservation] at hr
+    exact (outcome_done_inv hr)
 
 theorem sdr_record_fault_safe (cfg : SdrCfg) (cs : ChunkCodes)
     (reserve : Prog Nat) (setRes : Nat → Req → Req) (budget : Nat)
@@ -458,6 +445,120 @@ theorem sdr_record_fault_safe (cfg : SdrCfg) (cs : ChunkCodes)
     (sdr_record_multi_safe AnyFaults cfg cs reserve setRes budget mk nextOf pay hdr base resOpt rid res
       rid' nx0 nx rec hb hreserve hres hgiven hfix hdev hparse hlen)
     (fun _ _ => trivial)
+
+/-! ### the operation models the correspondence run compares with the code (Model/ProgOps.lean),
+on the scripted device, with the constants generated from the source -/
+
+/-- The generated constants of get_sel_entry satisfy what the proofs need. -/
+theorem sel_cfg_wf : selCfg.Wf := ⟨rfl, by decide, by decide, by decide⟩
+
+/-- Sel.get_sel_entry for a record the device holds. -/
+theorem script_get_sel_entry_multi_safe (s : Script) (res rid nx : Nat) (rec : List Nat)
+    (h : lookupRec s.sel rid = some (nx, rec)) (hlen : rec.length = 16) :
+    MultiSafeOn (Few 0xCA 16) s.base (opGetSelEntry selCfg res rid) :=
+  selEntry_ms selCfg _ rspNext rspPay finSel s.base rec nx sel_cfg_wf
+    (script_selStorage s selCfg res rid nx rec h hlen (by decide)) (by decide) selFuel (by decide)
+
+/-- Sel.get_and_clear_sel_entry for a well-formed record the device holds: any fault set
+with at most 16 answers CAh whose faults lie below position N, more than N rounds. -/
+theorem script_get_and_clear_multi_safe (s : Script) (rid nx : Nat) (rec : List Nat)
+    (h : lookupRec s.sel rid = some (nx, rec)) (hlen : rec.length = 16)
+    (hfin : finSel rec nx = .ok (rec, nx)) (N fuel : Nat) (hf : N + 1 ≤ fuel) :
+    MultiSafeOn (fun φ => Few 0xCA 16 φ ∧ Below N φ) s.base (opGetAndClear selCfg sel_cancel fuel rid) := by
+  have hst := script_selStorage s selCfg s.resId rid nx rec h hlen (by decide)
+  have hexact : ∀ n, outcome (opGetSelEntry selCfg s.resId rid) (pureDev s.base) n = .ok (rec, nx) := by
+    intro n
+    unfold opGetSelEntry getSelEntry
+    rw [selEntry_exact selCfg _ rspNext rspPay finSel s.base rec nx sel_cfg_wf hst selFuel
+      selCfg.entire [] n (by decide) (by simp) (by decide) (by decide), hfin]
+  unfold opGetAndClear
+  exact getAndClear_ms sel_cancel _ _ _ s.base (Few 0xCA 16) s.resId rec
+    (reserveOp_ms _ s.base _) (script_reserve_sel s) (reserveOp_adv s.base _)
+    (ms_bind _ s.base _ _ (script_get_sel_entry_multi_safe s s.resId rid nx rec h hlen)
+      (fun _ _ => ms_done _ s.base _))
+    (fun n => by rw [outcome_bind_ok (hexact n)]; rfl)
+    (by simp [Script.base, cDelSel, cGetSdr, cGetSel, cSelInfo, cReserveSel, cReserveSdr]) N fuel hf
+
+/-- Sel.sel_entries / get_sel_entries on a log whose records are 16 bytes long and whose
+next-record ids stay inside the log. -/
+theorem script_sel_entries_multi_safe (s : Script) (fuel : Nat)
+    (hlen : ∀ rid nx rec, lookupRec s.sel rid = some (nx, rec) → rec.length = 16)
+    (hclosed : ∀ rid nx rec, lookupRec s.sel rid = some (nx, rec) → nx ≠ sel_last →
+      (lookupRec s.sel nx).isSome)
+    (hfirst : (lookupRec s.sel sel_first).isSome) :
+    MultiSafeOn (Few 0xCA 16) s.base (opSelEntries selCfg sel_first sel_last fuel) := by
+  unfold opSelEntries
+  refine selEntries_ms _ sel_last s.base _ (fun rid => (lookupRec s.sel rid).isSome) _ _ _ _ _ fuel s.resId
+    (reserveOp_ms _ s.base _) (fun n r hr => by rw [script_reserve_sel s n] at hr; cases hr; rfl)
+    (fun rid hk => ?_) (fun rid b nx n hk hb hnx hl => ?_) hfirst
+  · obtain ⟨⟨nx, rec⟩, hx⟩ := Option.isSome_iff_exists.mp hk
+    exact script_get_sel_entry_multi_safe s s.resId rid nx rec hx (hlen rid nx rec hx)
+  · obtain ⟨⟨nx', rec⟩, hx⟩ := Option.isSome_iff_exists.mp hk
+    have hst := script_selStorage s selCfg s.resId rid nx' rec hx (hlen rid nx' rec hx) (by decide)
+    unfold opGetSelEntry getSelEntry at hb
+    rw [selEntry_exact selCfg _ rspNext rspPay finSel s.base rec nx' sel_cfg_wf hst selFuel
+      selCfg.entire [] n (by decide) (by simp) (by decide) (by decide)] at hb
+    have hb2 : b.2 = nx' := by
+      unfold finSel at hb
+      split at hb
+      · cases hb
+      · simp only at hb
+        split at hb
+        · cases hb; rfl
+        · cases hb
+    cases hnx
+    rw [hb2] at hl ⊢
+    exact hclosed rid nx' rec hx hl
+
+/-- get_repository_sdr / get_device_sdr for a record the device holds (given or no
+reservation): the record asked for (`rid`, 0 = the first) and the one its header names. -/
+theorem script_get_sdr_multi_safe (Φ : (Nat → Option Nat) → Prop) (s : Script) (resOpt : Option Nat)
+    (rid rid' nx0 nx : Nat) (rec : List Nat)
+    (hgiven : resOpt = none ∨ resOpt = some s.resId)
+    (h0 : lookupRec s.sdr rid = some (nx0, rec)) (h1 : lookupRec s.sdr rid' = some (nx, rec))
+    (hparse : sdrHeader (rec.take sdrCfg.hdrLen) = .ok (rid', rec.length))
+    (hlong : sdrCfg.hdrLen ≤ rec.length) (hshort : rec.length < 0xFF) :
+    MultiSafeOn Φ s.base (opGetSdr sdrCfg sdr_chunkCodes sdr_chunkRetry resOpt rid) := by
+  unfold opGetSdr opSdrChunk
+  exact sdr_record_multi_safe Φ sdrCfg sdr_chunkCodes _ setResOp _ (mkGet cGetSdr) rspNext rspPay sdrHeader s.base
+    resOpt rid s.resId rid' nx0 nx rec (by decide) (reserveOp_ms _ s.base _) (script_reserve_sdr s) hgiven
+    (fun r off len => setResOp_fix s.resId r off len)
+    (script_sdrStorage s sdrCfg s.resId rid rid' nx0 nx rec h0 h1 (by decide) hshort) hparse hlong
+
+/-- sdr_repository_entries / device_sdr_entries (and the `…_list` wrappers) on a repository of
+well-formed records whose next-record ids stay inside it. -/
+theorem script_sdr_entries_multi_safe (Φ : (Nat → Option Nat) → Prop) (s : Script) (fuel : Nat)
+    (Known : Nat → Prop)
+    (hrec : ∀ rid, Known rid → ∃ rid' nx0 nx rec,
+      lookupRec s.sdr rid = some (nx0, rec) ∧ lookupRec s.sdr rid' = some (nx, rec) ∧
+      sdrHeader (rec.take sdrCfg.hdrLen) = .ok (rid', rec.length) ∧ sdrCfg.hdrLen ≤ rec.length ∧
+      rec.length < 0xFF ∧ (nx ≠ 0 → nx ≠ sdr_last → Known nx))
+    (hfirst : Known sdr_first) :
+    MultiSafeOn Φ s.base (opSdrEntries sdrCfg sdr_chunkCodes sdr_chunkRetry sdr_first sdr_last fuel) := by
+  unfold opSdrEntries
+  refine sdrEntries_ms sdrNext sdr_last s.base Φ Known _ _ sdr_first fuel s.resId
+    (reserveOp_ms _ s.base _) (fun n r hr => by rw [script_reserve_sdr s n] at hr; cases hr; rfl)
+    (fun rid hk => ?_) (fun rid b nxt n hk hb hnx hl => ?_) hfirst
+  · obtain ⟨rid', nx0, nx, rec, a0, a1, a2, a3, a4, _⟩ := hrec rid hk
+    exact script_get_sdr_multi_safe Φ s (some s.resId) rid rid' nx0 nx rec (Or.inr rfl) a0 a1 a2 a3 a4
+  · obtain ⟨rid', nx0, nx, rec, a0, a1, a2, a3, a4, a5⟩ := hrec rid hk
+    -- fault-free, the record read returns the stored record and the next id `nx`
+    have hgood : outcome (opGetSdr sdrCfg sdr_chunkCodes sdr_chunkRetry (some s.resId) rid) (pureDev s.base) n =
+        .error .retryError ∨
+        outcome (opGetSdr sdrCfg sdr_chunkCodes sdr_chunkRetry (some s.resId) rid) (pureDev s.base) n =
+          .ok (nx, rec) :=
+      script_get_sdr_good s sdrCfg sdr_chunkCodes sdr_chunkRetry (by decide) rid rid' nx0 nx rec a0 a1 a2 a3 a4
+        (by decide) n
+    rcases hgood with g | g
+    · rw [g] at hb; cases hb
+    · rw [g] at hb
+      cases hb
+      unfold sdrNext at hnx
+      split at hnx
+      · cases hnx
+      · rename_i hne
+        cases hnx
+        exact a5 hne hl
 
 /-! ### per-shape corollaries -/
 
@@ -508,10 +609,10 @@ theorem cover_census :
 the models were written for, and they satisfy what the proofs need. -/
 theorem loop_constants_pinned :
     selCfg = ⟨0xFF, 16, 16, 1, 0xCA⟩ ∧ selCfg.Wf ∧ sel_cancel = 0xC5 ∧ sel_first = 0 ∧ sel_last = 0xFFFF ∧
-    sdrCfg = ⟨5, 20, 4, 20, 0xCA⟩ ∧ sdr_chunkRetry = 5 ∧ clear_retry = 5 ∧ sdr_first = 0 ∧
+    sdrCfg = ⟨5, 20, 4, 20, 0xCA⟩ ∧ sdr_chunkCodes = ⟨0xC5, 0xC3, 0xCE⟩ ∧ sdr_chunkRetry = 5 ∧ clear_retry = 5 ∧ sdr_first = 0 ∧
     sdr_last = 0xFFFF ∧
     codes_selBackoff = [selCfg.shrink] ∧ codes_restartOnCancel = [sel_cancel] := by
-  refine ⟨rfl, ⟨rfl, by decide, by decide, by decide⟩, rfl, rfl, rfl, rfl, rfl, rfl, rfl, rfl, rfl, rfl⟩
+  refine ⟨rfl, sel_cfg_wf, rfl, rfl, rfl, rfl, rfl, rfl, rfl, rfl, rfl, rfl, rfl⟩
 
 theorem handler_codes_pinned :
     codes_fruBackoff = [0xC8, 0xC9, 0xCA] ∧ codes_hpmWait = [0x80] ∧
@@ -607,5 +708,76 @@ example : outcome (andWait 0x80 ((sendChecked ⟨1, []⟩).bind fun _ => .done (
 -- intended componentProps on the counter-example's input: the code is reported
 example : outcome (componentProps true 0x83 (·.data) [⟨1, [0]⟩, ⟨1, [1]⟩]) (faultDev echo 1 0xC1) 0
     = .error (.ccError 0xC1) := by decide
+
+-- the scripted device with two SEL records and two SDRs
+def demoSel1 : List Nat := [1, 0, 2, 1, 0, 0, 0x5f, 0x20, 0, 4, 1, 0x30, 1, 0x57, 0x10, 0x20]
+def demoSel2 : List Nat := [2, 0, 2, 0x77, 0, 0, 0x5f, 0x20, 0, 4, 1, 0x31, 1, 0x52, 0x11, 0x21]
+def demoSdr1 : List Nat := [1, 0, 0x51, 0x12, 6, 10, 11, 12, 13, 14, 15]
+def demoSdr2 : List Nat := [2, 0, 0x51, 0xC0, 30] ++ (List.range 30).map (· + 0x40)
+def demoScript : Script := ⟨[(1, demoSel1), (2, demoSel2)], [(1, demoSdr1), (2, demoSdr2)], 0x1b0b⟩
+
+-- get_sel_entry: three refusals in a row (FFh -> 16 -> 15 -> 14 bytes per read) and the same entry comes back
+example : lookupRec demoScript.sel 1 = some (2, demoSel1) := by decide
+example : outcome (opGetSelEntry selCfg 7 1) (pureDev demoScript.base) 0 = .ok (demoSel1, 2) := by decide
+example : outcome (opGetSelEntry selCfg 7 1)
+    (faultsDev demoScript.base (fun n => if n < 3 then some 0xCA else none)) 0 = .ok (demoSel1, 2) := by decide
+example : trace (opGetSelEntry selCfg 7 1)
+    (faultsDev demoScript.base (fun n => if n < 3 then some 0xCA else none)) 0 =
+    [mkGet cGetSel 7 1 0 0xFF, mkGet cGetSel 7 1 0 16, mkGet cGetSel 7 1 0 15, mkGet cGetSel 7 1 0 14,
+     mkGet cGetSel 7 1 14 2] := by decide
+example : outcome (opGetSelEntry selCfg 7 1) (faultsDev demoScript.base (single 1 0xC1)) 0 = .ok (demoSel1, 2) := by
+  decide
+example : outcome (opGetSelEntry selCfg 7 1)
+    (faultsDev demoScript.base (fun n => if n = 0 then some 0xCA else if n = 1 then some 0xD5 else none)) 0 =
+    .error (.ccError 0xD5) := by decide
+-- the hypotheses of the listing theorems hold of it
+example : ∀ rid nx rec, lookupRec demoScript.sel rid = some (nx, rec) → rec.length = 16 := by
+  intro rid nx rec h
+  simp only [demoScript, lookupRec, findRec] at h
+  split at h
+  · cases h; rfl
+  · split at h
+    · cases h; rfl
+    · split at h
+      · cases h; rfl
+      · cases h
+example : (lookupRec demoScript.sel sel_first).isSome := by decide
+-- sel_entries: both entries; a fault inside the second read ends in that code, not in a short list
+example : outcome (opSelEntries selCfg sel_first sel_last 10) (pureDev demoScript.base) 0 =
+    .ok [(demoSel1, 2), (demoSel2, 0xFFFF)] := by decide
+example : outcome (opSelEntries selCfg sel_first sel_last 10) (faultsDev demoScript.base (single 3 0xCB)) 0 =
+    .error (.ccError 0xCB) := by decide
+example : outcome (opSelEntries selCfg sel_first sel_last 10) (faultsDev demoScript.base (single 3 0xCA)) 0 =
+    .ok [(demoSel1, 2), (demoSel2, 0xFFFF)] := by decide
+-- get_and_clear_sel_entry: C5h on the read, then C5h on the delete: two restarts, the entry
+example : outcome (opGetAndClear selCfg sel_cancel 8 1)
+    (faultsDev demoScript.base (fun n => if n = 1 ∨ n = 4 then some 0xC5 else none)) 0 = .ok demoSel1 := by decide
+example : trace (opGetAndClear selCfg sel_cancel 8 1)
+    (faultsDev demoScript.base (fun n => if n = 1 then some 0xC5 else none)) 0 =
+    [⟨cReserveSel, []⟩, mkGet cGetSel 0x1b0b 1 0 0xFF, ⟨cReserveSel, []⟩, mkGet cGetSel 0x1b0b 1 0 0xFF,
+     ⟨cDelSel, [0x1b0b, 1]⟩] := by decide
+example : outcome (opGetAndClear selCfg sel_cancel 8 1) (faultsDev demoScript.base (single 2 0xD4)) 0 =
+    .error (.ccError 0xD4) := by decide
+-- get_repository_sdr: CAh on the second data read -> 16-byte reads, the same record
+example : sdrHeader (demoSdr2.take sdrCfg.hdrLen) = .ok (2, demoSdr2.length) := by decide
+example : outcome (opGetSdr sdrCfg sdr_chunkCodes sdr_chunkRetry none 2) (pureDev demoScript.base) 0 =
+    .ok (0xFFFF, demoSdr2) := by decide
+example : outcome (opGetSdr sdrCfg sdr_chunkCodes sdr_chunkRetry none 2) (faultsDev demoScript.base (single 3 0xCA)) 0 =
+    .ok (0xFFFF, demoSdr2) := by decide
+example : outcome (opGetSdr sdrCfg sdr_chunkCodes sdr_chunkRetry none 2)
+    (faultsDev demoScript.base (fun n => if 2 ≤ n then some 0xCA else none)) 0 = .error .retryError := by decide
+example : outcome (opGetSdr sdrCfg sdr_chunkCodes sdr_chunkRetry none 2) (faultsDev demoScript.base (single 3 0xC5)) 0 =
+    .ok (0xFFFF, demoSdr2) := by decide
+example : outcome (opGetSdr sdrCfg sdr_chunkCodes sdr_chunkRetry none 2) (faultsDev demoScript.base (single 3 0xC9)) 0 =
+    .error (.ccError 0xC9) := by decide
+-- the SDR listing: both records, or the error -- never the first record alone
+example : outcome (opSdrEntries sdrCfg sdr_chunkCodes sdr_chunkRetry sdr_first sdr_last 10) (pureDev demoScript.base) 0 =
+    .ok [(2, demoSdr1), (0xFFFF, demoSdr2)] := by decide
+example : outcome (opSdrEntries sdrCfg sdr_chunkCodes sdr_chunkRetry sdr_first sdr_last 10)
+    (faultsDev demoScript.base (single 4 0xCB)) 0 = .error (.ccError 0xCB) := by decide
+-- the primitives hand the code over
+example : outcome (sendRaw ⟨1, []⟩) (faultsDev echo (single 0 0xC1)) 0 = .ok ⟨0xC1, []⟩ := by decide
+-- every kind of cover occurs
+example : coverCount leafModels residue table Cover.isLeaf ≥ 5 := by decide +kernel
 
 end PyIpmi.Props.C08
